@@ -57,6 +57,7 @@ type extFn struct {
 	initOuts []string        // init: the tables it assigns
 	tracked  map[string]bool // locals with an observed capacity (companion `<x>_bk`)
 	prefix   string          // lets placed in front of the body
+	resGo    []types.Type    // Go result types (for `return nil, err` of a flattened slice-of-structs result)
 }
 
 var extFns = map[*fnCtx]*extFn{}
@@ -737,6 +738,16 @@ func (fc *fnCtx) extLexpr(ex ast.Expr) (string, bool, error) {
 		return "", false, nil
 	}
 	if x, ok := ex.(*ast.IndexExpr); ok {
+		if id, isId := x.X.(*ast.Ident); isId {
+			if _, isLocal := fc.locals[id.Name]; isLocal && fc.m.ltype[id.Name] == "List (List Int)" {
+				i, err := fc.expr(x.Index)
+				if err != nil {
+					return "", true, err
+				}
+				needDm(fc.m.module)
+				return fc.bind(fmt.Sprintf("Gzx.GoM.idxL %s %s", fc.name(id.Name), i)), true, nil
+			}
+		}
 		if rows, ok := fc.constList2(x.X); ok {
 			name := "tbl_" + x.X.(*ast.Ident).Name
 			if !fc.m.tableSeen[name] && !moduleTables[fc.m.module+"|"+name] {
@@ -792,6 +803,9 @@ func (fc *fnCtx) extScanTracked(fd *ast.FuncDecl) {
 func (fc *fnCtx) extAssign(x *ast.AssignStmt, rest []ast.Stmt, lvl int) (string, bool, error) {
 	if fc.m == nil || fc.m.region || len(x.Lhs) != 1 || len(x.Rhs) != 1 || (x.Tok != token.DEFINE && x.Tok != token.ASSIGN) {
 		return "", false, nil
+	}
+	if s, handled, err := fc.extAssignLL(x, rest, lvl); handled {
+		return s, true, err
 	}
 	id, ok := x.Lhs[0].(*ast.Ident)
 	if !ok || id.Name == "_" {
@@ -923,6 +937,93 @@ func (fc *fnCtx) extAssign(x *ast.AssignStmt, rest []ast.Stmt, lvl int) (string,
 		}
 		needDm(fc.m.module)
 		return finish(fc.bind(fmt.Sprintf("Gzx.GoM.reslice %s %s %s %s", cur, bk, lo, hi)), true)
+	}
+	return "", false, nil
+}
+
+// extAssignLL: two-level local lists (`[][]byte`, the byte-slice field of a flattened local slice of structs):
+// `X := make([][]T, n)`, `X[k] = <slice>`, `X[j][i] = v`
+func (fc *fnCtx) extAssignLL(x *ast.AssignStmt, rest []ast.Stmt, lvl int) (string, bool, error) {
+	isLL := func(e ast.Expr) (string, bool) {
+		id, ok := e.(*ast.Ident)
+		if !ok {
+			return "", false
+		}
+		if _, isLocal := fc.locals[id.Name]; !isLocal || fc.m.ltype[id.Name] != "List (List Int)" {
+			return "", false
+		}
+		return id.Name, true
+	}
+	finish := func(name, val string) (string, bool, error) {
+		var sb strings.Builder
+		sb.WriteString(fc.flush(lvl))
+		fc.declare(name, "List (List Int)")
+		fmt.Fprintf(&sb, "%slet %s := %s\n", ind(lvl), fc.name(name), val)
+		r, err := fc.mblock(rest, lvl)
+		if err != nil {
+			return "", true, err
+		}
+		return sb.String() + r, true, nil
+	}
+	if id, ok := x.Lhs[0].(*ast.Ident); ok && x.Tok == token.DEFINE {
+		if call, ok := x.Rhs[0].(*ast.CallExpr); ok {
+			if fid, ok := call.Fun.(*ast.Ident); ok && fid.Name == "make" && len(call.Args) == 2 {
+				if t := fc.p.TypesInfo.TypeOf(call); t != nil {
+					if sl, ok := t.Underlying().(*types.Slice); ok {
+						if lt, err := leanTypeM(sl.Elem()); err == nil && lt == "List Int" {
+							if _, isSl := sl.Elem().Underlying().(*types.Slice); isSl {
+								n, err := fc.expr(call.Args[1])
+								if err != nil {
+									return "", true, err
+								}
+								needDm(fc.m.module)
+								return finish(id.Name, fc.bind("Gzx.GoM.mkLL "+n))
+							}
+						}
+					}
+				}
+			}
+		}
+		return "", false, nil
+	}
+	if x.Tok != token.ASSIGN {
+		return "", false, nil
+	}
+	ix, ok := x.Lhs[0].(*ast.IndexExpr)
+	if !ok {
+		return "", false, nil
+	}
+	if name, ok := isLL(ix.X); ok { // X[k] = <slice>
+		k, err := fc.expr(ix.Index)
+		if err != nil {
+			return "", true, err
+		}
+		v, err := fc.lexprOrMake(x.Rhs[0])
+		if err != nil {
+			return "", true, err
+		}
+		needDm(fc.m.module)
+		return finish(name, fc.bind(fmt.Sprintf("Gzx.GoM.setIdxLL %s %s %s", fc.name(name), k, v)))
+	}
+	if ix2, ok := ix.X.(*ast.IndexExpr); ok { // X[j][i] = v
+		if name, ok := isLL(ix2.X); ok {
+			j, err := fc.expr(ix2.Index)
+			if err != nil {
+				return "", true, err
+			}
+			i, err := fc.expr(ix.Index)
+			if err != nil {
+				return "", true, err
+			}
+			v, err := fc.expr(x.Rhs[0])
+			if err != nil {
+				return "", true, err
+			}
+			needDm(fc.m.module)
+			row := fc.bind(fmt.Sprintf("Gzx.GoM.idxL %s %s", fc.name(name), j))
+			row2 := fc.bind(fmt.Sprintf("Gzx.GoM.setIdx %s %s %s", row, i, v))
+			return finish(name, fc.bind(fmt.Sprintf("Gzx.GoM.setIdxLL %s %s %s", fc.name(name), j, row2)))
+		}
 	}
 	return "", false, nil
 }
